@@ -564,6 +564,14 @@ class World:
         if prop in self.want:
             self.problems.append((f'{prop}:{sig}', what))
 
+    def check_idle(self):
+        """C04 at rest: nothing pending, nothing executing => empty queue, empty views, nobody busy"""
+        S, F = self.S, self.F
+        if S.que or S.view_todo() or S.view_doing() or F._busy:  # pylint: disable=protected-access
+            self.flag('C04', 'e2e-idle-not-idle',
+                      f'nothing is pending or executing but queue={[j.tag for j in S.que]} '
+                      f'view_todo={S.view_todo()} view_doing={S.view_doing()} busy={F._busy}')  # pylint: disable=protected-access
+
     def units_of(self, tag, target):
         """the units of `tag` a new value / request for `target` concerns"""
         if self.kinds[tag] == 'analysis':
@@ -811,10 +819,7 @@ def run_scenario(store, sc, seed=0, model=None, probe=None, want=None):
                     w.flag(prop, 'e2e-no-quiescence',
                            f'after {what} {b}: still pending {w.pending()} / queued {len(w.tasks)}')
                 break
-            if w.S.que or w.S.view_todo() or w.S.view_doing() or w.F._busy:  # pylint: disable=protected-access
-                w.flag('C04', 'e2e-idle-not-idle',
-                       f'nothing is pending or executing but queue={[j.tag for j in w.S.que]} '
-                       f'view_todo={w.S.view_todo()} view_doing={w.S.view_doing()} busy={w.F._busy}')  # pylint: disable=protected-access
+            w.check_idle()
             if 'C02' not in w.want:
                 if not w.later_bumps:
                     break
